@@ -1,7 +1,7 @@
 //! C10 harness: document synchronisation vs plain-string splice.
 //!
 //! usage: c10 <mode> <seed> <n> <cases_out> <impl_out>
-//!   mode = exhaustive3 | exhaustive4 | random | emptystart | file:<path>
+//!   mode = exhaustive3 | exhaustive4 | exhaustive-special | random | emptystart | special | file:<path>
 //! cases_out: one case per line `doc|edit;edit;...` (see ocaml/c10_run.ml)
 //! impl_out : per case `states|oracle|flags` — the implementation's line buffer after every edit
 //!            (`PANIC` from the first panicking edit on), the independent plain-`Vec<char>` splice oracle
@@ -252,11 +252,36 @@ fn strings(alpha: &[char], n: usize) -> Vec<Vec<char>> {
     all
 }
 
+/// Characters that text-handling code likes to treat specially although for the LSP they are
+/// ordinary characters of a line: byte order marks, Unicode line / paragraph separators, NEL, NUL,
+/// VT, FF, non-characters, the borders of the surrogate range and of the planes.
+const SPECIALS: [char; 16] = [
+    '\u{feff}', '\u{fffe}', '\u{2028}', '\u{2029}', '\u{85}', '\u{0}', '\u{b}', '\u{c}', '\u{a0}', '\u{200b}',
+    '\u{fffd}', '\u{ffff}', '\u{d7ff}', '\u{e000}', '\u{10000}', '\u{10ffff}',
+];
+
+fn special(rng: &mut Rng) -> char {
+    // the byte order mark and the separators most often
+    if rng.below(2) == 0 {
+        *rng.pick(&SPECIALS[..6])
+    } else {
+        *rng.pick(&SPECIALS)
+    }
+}
+
 fn random_text(rng: &mut Rng, max: usize) -> Vec<char> {
     const ALPHA: [char; 9] = ['a', 'b', '\t', '\n', '\r', 'é', '€', '😀', ' '];
     let n = rng.below(max + 1);
     let mut out = Vec::new();
+    // 1 text in 6 STARTS with a special character
+    if n > 0 && rng.below(6) == 0 {
+        out.push(special(rng));
+    }
     for _ in 0..n {
+        if rng.below(14) == 0 {
+            out.push(special(rng));
+            continue;
+        }
         // bias towards line structure
         let c = match rng.below(10) {
             0 | 1 => '\n',
@@ -314,7 +339,7 @@ fn random_case(rng: &mut Rng) -> (Vec<char>, Vec<Edit>) {
 /// a UTF-16 offset that is a valid but different byte offset (silent mis-splice, no panic, should
 /// the implementation ever confuse the two) as well as offsets inside a multi-byte sequence.
 fn nonascii_text(rng: &mut Rng, multiline: bool) -> Vec<char> {
-    const WIDE: [char; 8] = ['ä', 'é', 'ß', '€', '→', '😀', '𝄞', 'Ω'];
+    const WIDE: [char; 11] = ['ä', 'é', 'ß', '€', '→', '😀', '𝄞', 'Ω', '\u{feff}', '\u{2028}', '\u{85}'];
     const WORDS: [&str; 8] = ["-- Z", "hler", "abc", " x", "signal s", ";", "r", " := 1"];
     let mut out: Vec<char> = Vec::new();
     let lines = if multiline { 1 + rng.below(3) } else { 1 };
@@ -460,6 +485,84 @@ fn emptystart_case(rng: &mut Rng) -> (Vec<char>, Vec<Edit>) {
     (doc, edits)
 }
 
+// ---------- texts that start with / contain "special" characters ----------
+/// Initial text (Contents::from_str) or full-text replacement starting with a special character
+/// (or holding one elsewhere), followed by ranged edits on the affected line.
+fn special_text(rng: &mut Rng) -> Vec<char> {
+    const WORDS: [&str; 6] = ["entity e is", "ab", "-- c", "x", "signal s : bit;", ""];
+    let mut out: Vec<char> = Vec::new();
+    let lines = 1 + rng.below(3);
+    let first = rng.below(4) != 0; // special as FIRST character of the text
+    let at_line = rng.below(lines);
+    for l in 0..lines {
+        if l > 0 {
+            match rng.below(4) {
+                0 => out.extend(['\r', '\n']),
+                1 => out.push('\r'),
+                _ => out.push('\n'),
+            }
+        }
+        if l == 0 && first {
+            out.push(special(rng));
+            if rng.below(4) == 0 {
+                out.push(special(rng));
+            }
+        }
+        let w: Vec<char> = rng.pick(&WORDS).chars().collect();
+        if (!first && l == at_line) || rng.below(5) == 0 {
+            let k = rng.below(w.len() + 1);
+            out.extend_from_slice(&w[..k]);
+            out.push(special(rng));
+            out.extend_from_slice(&w[k..]);
+        } else {
+            out.extend_from_slice(&w);
+        }
+    }
+    if rng.below(3) == 0 {
+        out.push('\n');
+    }
+    out
+}
+
+fn special_case(rng: &mut Rng) -> (Vec<char>, Vec<Edit>) {
+    let doc = if rng.below(5) == 0 { random_text(rng, 8) } else { special_text(rng) };
+    let mut s = normalize(&doc);
+    let mut edits = Vec::new();
+    for _ in 0..1 + rng.below(5) {
+        let nlines = s.iter().filter(|c| **c == '\n').count() as u32 + 1;
+        let e = match rng.below(10) {
+            // full-text replacement, mostly starting with a special character
+            0 | 1 => Edit::Full(special_text(rng)),
+            // a special character typed at the very start / somewhere by a ranged change
+            2 => {
+                let l = if rng.below(2) == 0 { 0 } else { rng.below(nlines as usize) as u32 };
+                let c = if rng.below(2) == 0 { 0 } else { rng.below(6) as u32 };
+                Edit::Ranged(l, c, l, c, vec![special(rng)])
+            }
+            // ranged edits on the affected line(s): small columns on line 0 (or any line)
+            _ => {
+                let l = if rng.below(3) != 0 { 0 } else { rng.below(nlines as usize) as u32 };
+                let c1 = rng.below(10) as u32;
+                let (l2, c2) = match rng.below(6) {
+                    0 => (l + 1, 0),
+                    1 | 2 => (l, c1),
+                    _ => (l, c1 + rng.below(4) as u32),
+                };
+                let t: Vec<char> = match rng.below(5) {
+                    0 => Vec::new(),
+                    1 => vec!['\n'],
+                    2 => random_text(rng, 3),
+                    _ => rng.pick(&["x", "ent", "!", " "]).chars().collect(),
+                };
+                Edit::Ranged(l, c1, l2, c2, t)
+            }
+        };
+        s = oracle_step(&s, &e);
+        edits.push(e);
+    }
+    (doc, edits)
+}
+
 fn parse_case(line: &str) -> Option<(Vec<char>, Vec<Edit>)> {
     let mut parts = line.split('|');
     let doc = parts.next()?;
@@ -494,7 +597,32 @@ fn main() {
         writeln!(cases_out, "{}", case_line(doc, edits)).unwrap();
         writeln!(impl_out, "{}", run_case(doc, edits)).unwrap();
     };
-    if mode.starts_with("exhaustive") {
+    if mode == "exhaustive-special" {
+        // every document <= 3 characters over {a, LF, U+FEFF, U+2028}, reaching the buffer through
+        // Contents::from_str (initial text) and through a full-text change, then one ranged change
+        let alpha = ['a', '\n', '\u{feff}', '\u{2028}'];
+        let docs = strings(&alpha, 3);
+        let repls = strings(&alpha, 1);
+        let mut positions = Vec::new();
+        for l in 0..3u32 {
+            for c in 0..4u32 {
+                positions.push((l, c));
+            }
+        }
+        for d in &docs {
+            for t in &repls {
+                for p in &positions {
+                    for q in &positions {
+                        if p <= q {
+                            let r = Edit::Ranged(p.0, p.1, q.0, q.1, t.clone());
+                            emit(d, &[r.clone()]);
+                            emit(&['a'], &[Edit::Full(d.clone()), r]);
+                        }
+                    }
+                }
+            }
+        }
+    } else if mode.starts_with("exhaustive") {
         let (dn, tn) = if mode == "exhaustive4" { (4, 3) } else { (3, 2) };
         let alpha = ['a', '\n', '\r', '😀'];
         let docs = strings(&alpha, dn);
@@ -520,6 +648,12 @@ fn main() {
         let mut rng = Rng::new(seed);
         for _ in 0..n {
             let (doc, edits) = random_case(&mut rng);
+            emit(&doc, &edits);
+        }
+    } else if mode == "special" {
+        let mut rng = Rng::new(seed ^ 0x0bad_feff);
+        for _ in 0..n {
+            let (doc, edits) = special_case(&mut rng);
             emit(&doc, &edits);
         }
     } else if mode == "emptystart" {
